@@ -234,6 +234,8 @@ def build(G):
     specs.update(as_assumed(NAME_SPECS, ["DomainName::is_subdomain_of"]))
     specs["RecordTypeWithData::rtype"] = {"mode": "assume", "props": [], "contract": "    ensures r == spec_rtype_of(*self),"}
     G.impl(T, "DomainName", ["is_subdomain_of"], "DomainName::", specs)
+    specs["Nameservers::match_count"] = {"props": ["C06", "C07"], "contract": "    ensures r == self.name.labels@.len(), // [C06,C07:depth_of_the_delegation_in_use_is_its_label_count]"}
+    G.impl(U, "Nameservers", ["match_count"], "Nameservers::", specs)
     G.top_fn(N, "response_matches_request", specs)
     G.top_fn(N, "get_nxdomain_nodata_soa", specs)
     specs["RecordType::matches"] = {"props": ["C06"], "mode": "prove", "contract": "    ensures r == qtype_matches(*self, qtype),", "entry": "broadcast use group_eq_axioms;"}
